@@ -221,6 +221,10 @@ structure IrcBehaviour where
   feedRaises : List C05.Msg → C05.Msg → Option Exc
   takeRaises : List Str → Option Exc
   unencodable : Str → Bool
+  /-- `feedMsg(m)` makes the Irc call `driver.reconnect(wait=…)` (doError, STS, SASL abort …) -/
+  reconnects : List C05.Msg → C05.Msg → Option Bool := fun _ _ => none
+  /-- what `Irc.reset()` queues -/
+  onReset : List Str := []
 
 def escName : Outcome Unit → Option String
   | .ret _ => none
@@ -240,7 +244,9 @@ def envOf (b : IrcBehaviour) : C11.Env :=
       match escName (viaFirewall Gen.ircFirewalled "takeMsg" (optExc (b.takeRaises q))) with
       | some e => some e
       | none => if encodeStrict && q.any b.unencodable then some "UnicodeEncodeError" else none
-    malformedEscapes := !malformedCaught }
+    malformedEscapes := !malformedCaught
+    reconnects := b.reconnects
+    onReset := b.onReset }
 
 /-- handlers and plugins raise nothing but `Exception`s -/
 def OnlyExceptions (b : IrcBehaviour) : Prop :=
